@@ -264,6 +264,18 @@ fn check(src: &str, ctxs: &[(String, HCtx)], st: &mut Stats) {
                 }
             }
         }
+        // sources without an assignment operator: the shared-context family and the mutable family are
+        // views of the same evaluator too
+        if !src.split(' ').any(|t| t.ends_with('=') && t != "==" && t != "!=" && t != "<=" && t != ">=") && canon(&u_ctx) != canon(&u_mut) {
+            st.violation(viol(
+                "shared-and-mutable-families-differ",
+                src,
+                cname,
+                format!("eval_with_context_mut = {}", canon(&u_mut)),
+                format!("eval_with_context = {}", canon(&u_ctx)),
+            ));
+            return;
+        }
         // every `_mut` variant leaves the context as the untyped `_mut` run does
         for (name, vars) in &s1.after {
             if *vars != after_mut {
